@@ -3,9 +3,9 @@ import Rivaas.Spec.Presence
 /-
 Driver for C05. Case line (strings hex-encoded, lists as `n item…`):
 
-  <id> J <json> R <n> { <path> <resolves> <n> <tag>… <num> <cresolves> <cpanics> <n> <ctag>… }*
+  <id> J <json> R <n> { <path> <resolves> <n> { <tag> <n> <shown path>… }* <num> <cresolves> <cpanics> <n> <ctag>… }*
        O <mode 0=partial 1=full> <maxErrors> <maxFields> <n> <redacted path>… <singleRule>
-       F <n> { <json path> <path as shipped> <tag> }*
+       F <n> { <json path> <path as shipped> <tag> <n> <shown path>… }*
     => PM <n> <path>… LV <n> <path>… V ( N | P | E <truncated> <n> { <path> <code> <hidden> }* )
        K <leak> D <deterministic>
 
@@ -27,10 +27,15 @@ partial def pJson : P Json := do
     pure (.arr items)
   else failure
 
+def pViol : P Viol := do
+  let t ← str
+  let sh ← list str
+  pure { tag := t, shows := sh }
+
 def pRule : P Rule := do
   let p ← str
   let r ← bool
-  let ts ← list str
+  let ts ← list pViol
   let num ← bool
   let cr ← bool
   let cp ← bool
@@ -43,9 +48,9 @@ structure Case where
   full : Bool
   opts : Opts
   single : Bool
-  fullErrs : List (Path × Bytes)
+  fullErrs : List (Path × Viol)
   /-- the same errors with the path as `namespaceToJSONPath` computed it before the repair of K05e -/
-  fullErrsAsIs : List (Path × Bytes)
+  fullErrsAsIs : List (Path × Viol)
 
 def pCase : P Case := do
   lit "J"
@@ -62,7 +67,7 @@ def pCase : P Case := do
   let red ← list str
   let single ← bool
   lit "F"
-  let fe ← list (do let p ← str; let ap ← str; let t ← str; pure (p, ap, t))
+  let fe ← list (do let p ← str; let ap ← str; let t ← pViol; pure (p, ap, t))
   pure { top := top, rules := rules, full := mode == 1,
          opts := { maxErrors := me, maxFields := mf, redacted := red }, single := single,
          fullErrs := fe.map fun (p, _, t) => (p, t), fullErrsAsIs := fe.map fun (_, ap, t) => (ap, t) }
@@ -120,12 +125,12 @@ def encV : VObs → String
 def modelPresence (c : Case) : List Path := presence c.top
 def modelLeaves (pm : List Path) : List Path := leafPaths pm
 def modelValidate (c : Case) (pm : List Path) : VObs :=
-  if c.full then .res (validateFull c.fullErrs c.opts)
-  else .res (validatePartial pm c.rules c.opts)
+  if c.full then .res (validateFullAsIs c.fullErrs c.opts)
+  else .res (validatePartialF pm c.rules c.opts)
 
 /-- errors that ought to be reported, evaluated on the presence set the implementation reported -/
-def want (c : Case) (o : Obs) : List (Path × Bytes) :=
-  if c.full then c.fullErrs.map fun (p, t) => (p, tagPrefix ++ t)
+def want (c : Case) (o : Obs) : List Want :=
+  if c.full then c.fullErrs.map fun (p, v) => ⟨p, tagPrefix ++ v.tag, v.shows⟩
   else expectedErrs o.pm c.rules c.opts
 
 def specOK (c : Case) (o : Obs) : Bool :=
@@ -144,7 +149,8 @@ def step (line : String) : String :=
       let mpm := modelPresence c
       let mlv := modelLeaves mpm
       let mv := modelValidate c mpm
-      let mi := o.pm == mpm && o.leaves == mlv && decide (o.v = mv) && !o.leak && o.det
+      -- `leak` and `det` are oracle bits about the implementation only; the model has no counterpart
+      let mi := o.pm == mpm && o.leaves == mlv && decide (o.v = mv)
       let s := specOK c o
       verdict id mi s "-" s!"PM {encPaths mpm} LV {encPaths mlv} V {encV mv} K 0 D 1"
     | _, _ => s!"{id} bad-case"
